@@ -20,7 +20,7 @@ PROPERTY = "C14"
 MODULES = ["aiortc.rtcpeerconnection", "aiortc.rtcsessiondescription"]
 DEADLINE = {"quick": 400, "thorough": 2400}
 
-DEFECTS = ["no-ufrag", "no-pwd", "no-rtcp-mux", "actpass-in-answer", "actpass-in-datachannel-answer", "mismatched-mid", "extra-media", "no-direction", "bad-type"]
+DEFECTS = ["no-ufrag", "no-pwd", "no-rtcp-mux", "actpass-in-answer", "actpass-in-datachannel-answer", "no-setup", "mismatched-mid", "extra-media", "no-direction", "bad-type"]
 
 
 def _mutate(sdp_text, kind):
@@ -37,6 +37,8 @@ def _mutate(sdp_text, kind):
         if i < 0:
             return sdp_text
         return sdp_text[:i] + re.sub(r"a=setup:(active|passive)", "a=setup:actpass", sdp_text[i:])
+    if kind == "no-setup":
+        return re.sub(r"a=setup:[^\r\n]*\r\n", "", sdp_text)
     if kind == "no-direction":
         # legal: a section without a direction attribute means sendrecv (RFC 3264) - not a defect
         return re.sub(r"a=(sendrecv|sendonly|recvonly|inactive)\r\n", "", sdp_text)
@@ -59,7 +61,7 @@ def _expected_defect_effect(kind, desc_type, has_audio):
         return True
     if kind == "no-rtcp-mux":
         return has_audio
-    if kind in ("actpass-in-answer", "actpass-in-datachannel-answer"):
+    if kind in ("actpass-in-answer", "actpass-in-datachannel-answer", "no-setup"):
         return desc_type == "answer"
     if kind in ("mismatched-mid", "extra-media"):
         return desc_type == "answer"
@@ -195,7 +197,7 @@ def h_jsep(ctx, depth, media, pre="none"):
                                     pass
                             log.append((who, call, defect, "ValueError"))
                             continue
-                        if defect in ("mismatched-mid", "extra-media") and typ != "answer":
+                        if defect in ("mismatched-mid", "extra-media", "no-setup") and typ != "answer":
                             # these only make an *answer* defective (it must mirror the offer)
                             log.append((who, call, defect, "n/a"))
                             continue
@@ -311,7 +313,7 @@ HARNESSES = {
         + [{"depth": d, "media": m, "pre": "round"} for m in ("both", "data") for d in ((2,) if tier == "quick" else (2, 3))]
         + [{"depth": d, "media": "both", "pre": "round+swapped-offer"} for d in ((1, 2) if tier == "quick" else (1, 2, 3))],
         style="BMC over API call sequences (real objects, real event loop)",
-        bounds="every sequence of 2..3 (quick) / 2..4 calls over {createOffer, createAnswer, setLocal(offer|answer|implicit), setRemote(offer|answer|defective with 9 kinds of alteration (8 defects and one legal variation)), close, close / setLocalDescription started but not yet awaited} applied to either peer of a pair (offerer with a data channel, or data channel + audio transceiver), from the initial state and (2 / 2..3 calls) from the state after one completed offer/answer round",
+        bounds="every sequence of 2..3 (quick) / 2..4 calls over {createOffer, createAnswer, setLocal(offer|answer|implicit), setRemote(offer|answer|defective with 10 kinds of alteration (9 defects and one legal variation)), close, close / setLocalDescription started but not yet awaited} applied to either peer of a pair (offerer with a data channel, or data channel + audio transceiver), from the initial state and (2 / 2..3 calls) from the state after one completed offer/answer round",
         encoded=ENC,
         stubs=["none: real RTCPeerConnection objects, aioice gathers on local interfaces; background connection tasks are cancelled at the end of every path"],
         outside=["pranswer / rollback", "sequences longer than 4 calls", "symbolic SDP content (C09)"],
